@@ -94,4 +94,21 @@ Proof using u_range fadd_ok fsub_ok.
     split; nra.
 Qed.
 
+(* the same statement with [cdrift_re] / [cdrift_im] spelled out *)
+Lemma jacobian_call_points_drift_C_explicit (F : list cm -> res (list cm)) (x : list cm) (d : R)
+    (st : list cm) (J : matrix (NA OCM)) (evs : list (list cm)) :
+  jacobian_tr OCM F x (emb OCM d) = Ok (st, J, evs) ->
+  evs = x :: map (call_pt OCM x (emb OCM d)) (seq 0 (length x)) /\
+  (forall j k, (j < length x)%nat ->
+     Rabs (re (nth k (call_pt OCM x (emb OCM d) j) czm) - (if k =? j then re (nth k x czm) + d else re (nth k x czm)))
+       <= (if k =? j then u * Rabs (re (nth k x czm) + d)
+           else if k <? j then (2 * u + u * u) * (Rabs (re (nth k x czm)) + Rabs d) else 0) /\
+     Rabs (im (nth k (call_pt OCM x (emb OCM d) j) czm) - im (nth k x czm))
+       <= (if k =? j then u * Rabs (im (nth k x czm))
+           else if k <? j then (2 * u + u * u) * Rabs (im (nth k x czm)) else 0)) /\
+  length st = length x /\
+  (forall k, Rabs (re (nth k st czm) - re (nth k x czm)) <= (2 * u + u * u) * (Rabs (re (nth k x czm)) + Rabs d) /\
+             Rabs (im (nth k st czm) - im (nth k x czm)) <= (2 * u + u * u) * Rabs (im (nth k x czm))).
+Proof using u_range fadd_ok fsub_ok. exact (jacobian_call_points_drift_C_lemma F x d st J evs). Qed.
+
 End JacRoundC.
